@@ -1559,6 +1559,18 @@ class Verifier(Exec):
 
     def contract_call(self, st, ins, callee, spec, args, bindings=()):
         self.callees.add(callee)
+        for fn_, cl_ in getattr(self.spec, 'callsites', None) or []:
+            if short_fn(callee).split('.', 1)[-1] == fn_ or short_fn(callee) == fn_:
+                self.env_line = self.cur_line
+                try:
+                    env_ = dict(self.spec_env(self.scope_at_line(self.cur_line)))
+                finally:
+                    self.env_line = None
+                for i_, a_ in enumerate(args):
+                    env_['arg%d' % i_] = a_
+                t_ = SpecEval(self, st, env_, self.old, cl_.src).boolean(cl_.expr)
+                self.oblige(st, 'callsite', fn_, t_, {'clause': 'callsite %s requires %s' % (fn_, cl_.text)}, cl_.props)
+                self.callsites_hit = getattr(self, 'callsites_hit', set()) | {fn_}
         if spec.trusted:
             self.trusted.add('contract of %s (assumed)' % short_fn(callee))
         sig = self.callee_sig(callee)
